@@ -268,3 +268,10 @@ pub fn grammar_list(args: &[String]) {
     w.flush().unwrap();
     println!("{}", json!({"written": gi - arg_u64(args, "--gi0", 0), "next_gi": gi, "considered": seen, "rejected_by_validator": rejected}));
 }
+
+/// `vh unicode-names`: the advertised Unicode property names and the three static lists.
+pub fn unicode_names(_args: &[String]) {
+    let adv: Vec<&str> = pest::unicode::unicode_property_names().collect();
+    println!("{}", json!({"advertised": adv, "binary": pest::unicode::BINARY_PROPERTY_NAMES,
+        "category": pest::unicode::CATEGORY_PROPERTY_NAMES, "script": pest::unicode::SCRIPT_PROPERTY_NAMES}));
+}
